@@ -28,6 +28,8 @@ func SendAccountDebitRequest(
 	if err != nil {
 		return nil, err
 	}
+	// one connection per request: close it (and stop its watchdog) when the request is done
+	defer conn.Close()
 
 	meta, ok := smpeer.FromContext(conn.Context())
 	if !ok {
